@@ -643,8 +643,56 @@ func c16Structural(c *core.Ctx, pkgs ...string) {
 	p := facts(c)
 	nScan := 0
 	lineLimits := map[string][]string{}
+	type scanHelper struct {
+		makes, split, returnsErr bool
+		maxTok                   string
+	}
+	scannerHelpers := map[*ssa.Function]scanHelper{}
+	for _, g := range p.funcs {
+		if g.Parent() != nil || g.Signature.Results().Len() != 1 {
+			continue
+		}
+		rt := g.Signature.Results().At(0).Type().String()
+		var h scanHelper
+		h.maxTok = "default (64 KiB)"
+		allInstrs(g, func(_ *ssa.Function, ins ssa.Instruction) {
+			call, ok := ins.(ssa.CallInstruction)
+			if !ok {
+				return
+			}
+			cal := call.Common().StaticCallee()
+			if cal == nil {
+				return
+			}
+			switch cal.String() {
+			case "bufio.NewScanner":
+				h.makes = rt == "*bufio.Scanner"
+			case "(*bufio.Scanner).Buffer":
+				args := call.Common().Args
+				if k, ok := args[len(args)-1].(*ssa.Const); ok && k.Value != nil {
+					h.maxTok = k.Value.ExactString()
+				} else {
+					h.maxTok = "not a constant"
+				}
+			case "(*bufio.Scanner).Split":
+				h.split = true
+			case "(*bufio.Scanner).Err":
+				if v := call.Value(); v != nil && isErrorType(g.Signature.Results().At(0).Type()) {
+					if ft := p.fateOf(v); ft.returned {
+						h.returnsErr = true
+					}
+				}
+			}
+		})
+		if h.makes || h.returnsErr {
+			scannerHelpers[g] = h
+		}
+	}
 	for _, f := range p.funcs {
 		if f.Parent() != nil || isDeprecatedIndels(f) {
+			continue
+		}
+		if _, isHelper := scannerHelpers[f]; isHelper {
 			continue
 		}
 		if len(pkgs) > 0 && (f.Pkg == nil || !containsStr(pkgs, c.RelOf(f.Pkg.Pkg))) {
@@ -660,6 +708,26 @@ func c16Structural(c *core.Ctx, pkgs ...string) {
 			}
 			cal := call.Common().StaticCallee()
 			if cal == nil {
+				return
+			}
+			// a helper of the repository that makes the scanner (its line limit and split function are the reader's) or
+			// that asks the scanner for its error and returns it (the reader must then report the helper's result)
+			if inRepo(cal) && cal != fn {
+				if h, ok := scannerHelpers[cal]; ok {
+					if h.makes {
+						usesScanner = true
+						maxTok = h.maxTok
+						split = split || h.split
+					}
+					if h.returnsErr {
+						errChecked = true
+						if v := call.Value(); v != nil {
+							if ft := pf.fateOf(v); ft.returned || ft.sent {
+								errReported = true
+							}
+						}
+					}
+				}
 				return
 			}
 			switch cal.String() {
